@@ -220,3 +220,45 @@ def op_eq(a, b):
 
 def op_ne(a, b):
     return not loose_equals(a, b)
+
+
+def num_exponentiate(base, exponent):
+    """6.1.6.1.3 Number::exponentiate on doubles; returns (value, exact) -- exact is False where the spec allows an
+    implementation-approximated result (finite non-trivial powers)"""
+    import math
+    b, e = float(base), float(exponent)
+    if e != e:
+        return float("nan"), True
+    if e == 0:
+        return 1.0, True
+    if b != b:
+        return float("nan"), True
+    odd = abs(e) < 2 ** 53 and e == math.floor(e) and int(e) % 2 == 1
+    if b == math.inf:
+        return (math.inf if e > 0 else 0.0), True
+    if b == -math.inf:
+        if e > 0:
+            return (-math.inf if odd else math.inf), True
+        return (-0.0 if odd else 0.0), True
+    if b == 0:
+        neg = math.copysign(1, b) < 0
+        if e > 0:
+            return (-0.0 if neg and odd else 0.0), True
+        return (-math.inf if neg and odd else math.inf), True
+    if e in (math.inf, -math.inf):
+        a = abs(b)
+        if a == 1:
+            return float("nan"), True
+        if (a > 1) == (e > 0):
+            return math.inf, True
+        return 0.0, True
+    if b < 0 and abs(e) < 2 ** 53 and e != math.floor(e):
+        return float("nan"), True
+    try:
+        r = math.pow(b, e)
+    except OverflowError:
+        r = math.inf if (b > 0 or not odd) else -math.inf
+    except ValueError:
+        r = float("nan")
+    exact = (abs(b) < 2 ** 53 and b == math.floor(b) and e == math.floor(e) and 0 <= e <= 60 and abs(b) <= 2 ** 20 and abs(r) < 2 ** 53) or r in (math.inf, -math.inf) or r == 0
+    return r, exact
